@@ -325,6 +325,17 @@ class C08(Scenario):
                         sim.probe("cross_batch_pairing")
                 elif tt - tf == d:
                     sim.probe("expiry_boundary")
+        # only unmatched first halves are delayed: when no MOVED_FROM precedes a record in the kernel sequence and the
+        # consumer never pauses, the record is handed over at the very tick its batch was read
+        if not case["consumer_stall"]:
+            first_from = min([pos[i] for i in order if recs[i][0] == "F"], default=len(order))
+            for item, t, seq in hist["delivered"]:
+                idxs = item[1:]
+                if all(pos[i] < first_from for i in idxs):
+                    tr = max(read_times[i] for i in idxs)
+                    if t != tr:
+                        v.append(Violation("delayed", "C08:undelayed-record-delivered-late", f"{item} read at {tr} delivered at {t} although nothing delayed was queued before it"))
+                        break
         for item, t, seq in hist["delivered"]:
             if item[0] == "one" and recs[item[1]][0] == "F":
                 tf = read_times[item[1]]
